@@ -287,6 +287,10 @@ func historyPass(res *ux.Result, lo int, rejected []reload) {
 	for pass := 0; pass < 2; pass++ {
 		runtime.GC()
 		for _, r := range rejected {
+			if ux.Stop() {
+				res.Capped = true
+				break
+			}
 			ux.Progress(r.rp.Index - lo)
 			c := &checker{res: res, rp: r.rp}
 			c.rp.History = true
@@ -478,6 +482,10 @@ func runRangeFrom(tier string, b batch, from int, res *ux.Result, onlyIdx int) {
 	for i := b.Lo + from; i < hi; i++ {
 		if onlyIdx >= 0 && i != onlyIdx {
 			continue
+		}
+		if ux.Stop() {
+			res.Capped = true
+			break
 		}
 		ux.Progress(i - b.Lo)
 		c := &checker{res: res, rp: replay{Base: bb.Name, What: ms[i].What, Index: i, BaseI: b.Base, Kind: b.Kind, Tier: tier, Lo: b.Lo, Hi: b.Hi}}
